@@ -21,4 +21,7 @@ def f4 : Bool := true
 /-- F18: FollowLinks clamps requested paths at the root -/
 def f18 : Bool := true
 
+/-- F23: copy names the landing entry after the source argument confined to the source root ("sub/.." is the root) -/
+def f23 : Bool := true
+
 end Fsm.Fix
